@@ -283,3 +283,22 @@ prop("C17", shards=16,
      level_note="Trusted: harness/ref/nbt, encoding/json, the en-us table (only to pick keys and read their templates). Mixed "
                 "string/component argument lists are not generated (NBT lists are homogeneous). Templates with positional or non-%s "
                 "verbs are outside the rendering clause.")
+
+prop("C18", shards=16,
+     technique="rapid property-based testing against math/big and crypto/md5 restatements of the Java definitions; structured signature forgeries with a positive control",
+     rule="C18Name: names (empty, ASCII, non-ASCII, 1 KiB, invalid UTF-8, [A-Za-z0-9_]{1,16}): offline.NameToUUID == MD5 of "
+          "'OfflinePlayer:'+name with version 3 / variant bits forced. C18Digest: (serverID, 16-byte secret, 0..200-byte key) with a "
+          "deterministic nonce search steering the SHA-1 into classes {any, leading zero nibble, leading zero byte, two leading zero "
+          "bytes, negative, negative with 0xff lead, negative with 1 / 2 trailing zero bytes (carry chains)}: bot.authDigest == "
+          "server/auth.authDigest == new BigInteger(sha1).toString(16) computed with math/big (wiki.vg vectors anchor the "
+          "reference). C18Twos: both twosComplement copies on constructed 20-byte arrays (0x80 00.., k trailing zero bytes, all "
+          "ff/00, carry chains) == (2^160 - x) mod 2^160. C18Sig: VerifySignature and PublicKey.Verify (expiry in the future) on "
+          "random 512-byte strings, zeros, 0xff, short/long/empty signatures, and correct PKCS#1 v1.5 signatures made by OTHER RSA "
+          "keys (4096 and 2048 bit) incl. bit flips: every one must be rejected; positive control through the overlay hook: with "
+          "the embedded key swapped for the harness key the genuine signature verifies and its bit flip does not. Non-trivial: "
+          "digest in a steered class; array with trailing zero byte; non-empty forgery. Distinct: hash of the JSON case.",
+     level_text="Sampled inputs with classes steered by search; the universal negative over signatures is only sampled with "
+                "structured forgeries (see DESIGN.md section 9).",
+     level_note="Trusted: math/big, crypto/*, harness/ref/java (25 lines). Hook: unexported authDigest/twosComplement and the embedded "
+                "key are reached through -overlay files under /verif/overlay guarded by the verif build tag. The positive control "
+                "mirrors go-mc's message format; it is not part of the claim.")
